@@ -528,6 +528,11 @@ func (b *seatBFS) oracle(from int32, op seatOp, before, after *seatMirror, errSt
 				}
 				v("refused-with-two-live@"+pat, fmt.Sprintf("rotation refused (%s) although %d seated-in players have chips", errStr, liveN))
 			}
+			// a refused rotation re-evaluates the waiting flags against a degenerate arc: the re-entry clause
+			// below only speaks about players whose last evaluation happened at a successful rotation
+			for i := range newMiss {
+				newMiss[i] &^= 8
+			}
 			return newMiss
 		}
 		if liveN < 2 {
@@ -590,6 +595,28 @@ func (b *seatBFS) oracle(from int32, op seatOp, before, after *seatMirror, errSt
 				v("buttons-not-distinct@"+pat, fmt.Sprintf("three or more dealt in but D%d/SB%d/BB%d are not distinct", after.DealerSeatID, after.SBSeatID, after.BBSeatID))
 			}
 		}
+		// C05: a player who was not live (busted, or seated but not sat in) at the previous rotation and is live now
+		// re-enters on a newcomer's terms. Only the clear-cut case is asserted: his seat lay strictly between button
+		// and BB at the previous rotation and still does after this one, three or more are dealt in, no heads-up
+		// transition is involved - then he must be waiting.
+		establishedLive := 0 // players dealt into the previous hand who are still live: if fewer than two, nobody is made to wait
+		for s := 0; s < n; s++ {
+			if before.active(s) {
+				establishedLive++
+			}
+		}
+		if miss != nil && dealt >= 3 && establishedLive >= 2 {
+			huBefore := before.DealerSeatID == before.SBSeatID
+			huAfter := after.DealerSeatID == after.SBSeatID
+			for s := 0; s < n && !huBefore && !huAfter; s++ {
+				if miss[s]&8 == 0 || !before.live(s) {
+					continue
+				}
+				if strictlyBetween(n, before.DealerSeatID, before.BBSeatID, s) && strictlyBetween(n, after.DealerSeatID, after.BBSeatID, s) && after.active(s) {
+					v("C05:reentrant-dealt-in-between-button-and-bb", fmt.Sprintf("seat %d was not eligible at the previous rotation (busted or not sat in), has re-bought / sat in since and lies strictly between button %d and BB %d (as it did before: %d..%d), yet it is dealt in instead of waiting for the big blind", s, after.DealerSeatID, after.BBSeatID, before.DealerSeatID, before.BBSeatID))
+				}
+			}
+		}
 		// C05 (6) release: a waiting player whose seat is the new BB seat is dealt in (covered by bb-not-dealt-in)
 		// C05: rotation never makes an active player wait
 		for s := 0; s < n; s++ {
@@ -608,22 +635,29 @@ func (b *seatBFS) missStep(miss []int8, before, after *seatMirror, v func(string
 		return
 	}
 	for s := 0; s < b.n; s++ {
+		cnt := miss[s] & 7
 		if after.live(s) && !after.active(s) {
-			if miss[s] < 4 {
-				miss[s]++
+			if cnt < 4 {
+				cnt++
 			}
-			if miss[s] > 3 {
+			if cnt > 3 {
 				// discriminate: is the player waiting because the rotation rule says so (still strictly between the
 				// seat the rule takes as dealer - the previous SB seat - and the new BB), or is the flag stuck?
 				pat := "flag-stuck"
 				if before != nil && strictlyBetween(b.n, before.SBSeatID, after.BBSeatID, s) {
 					pat = "still-between-previous-sb-and-new-bb"
 				}
-				v("C05:missed-more-than-three@"+pat, fmt.Sprintf("seat %d is seated-in with chips and has now missed %d hands in a row", s, miss[s]))
+				v("C05:missed-more-than-three@"+pat, fmt.Sprintf("seat %d is seated-in with chips and has now missed %d hands in a row", s, cnt))
 			}
 		} else {
-			miss[s] = 0
+			cnt = 0
 		}
+		// bit 8: occupied but not live (busted / not sat in) at this *rotation* (the initial positioning makes
+		// nobody wait: a player given his seat before positions were set is outside the waiting rule)
+		if before != nil && after.SeatData[s] != nil && !after.live(s) {
+			cnt |= 8
+		}
+		miss[s] = cnt
 	}
 }
 
